@@ -129,7 +129,7 @@ Proof. exact item_calls_alone. Qed.
 Print Assumptions C14_item_calls_alone.
 
 (* the code's arithmetic is not NULL-propagating for a parenthesis-free sum: lag(v) + acc_sum(v) on a first row
-   with v = 3 is the string "3" (F50); NULL under the intended arithmetic, and NULL in the code for - *)
+   with v = 3 is the string "3" (F51); NULL under the intended arithmetic, and NULL in the code for - *)
 Theorem C14_wrapper_sum_null_asis_refuted :
   let cs := [ {| ca_fn := AFLag; ca_args := [AEField colv] |}; {| ca_fn := AFAcc AKSum; ca_args := [AEField colv] |} ] in
   let h := [[(colv, AVInt 3)]] in
@@ -206,7 +206,7 @@ Print Assumptions C14_sync_spec.
 (* non-vacuity: SELECT lag(v) + acc_sum(v) OVER (PARTITION BY p) AS a0, changed_cols('c_', false, v, w) ... WHERE
    acc_count(v) > 0, two partitions interleaved, cap 2: the hypotheses of C14_msync_spec hold and the result is not
    trivial: row 1 is filtered out (count 1) but still counted by every engine, row 2 - the first row of partition
-   "b" - shows F50's string "4", row 3 is lag 3 + sum 8 of partition "a") *)
+   "b" - shows F51's string "4", row 3 is lag 3 + sum 8 of partition "a") *)
 Example C14_example_items :
   let colp := [112]%N in let colw := [119]%N in
   let lagv := {| ca_fn := AFLag; ca_args := [AEField colv] |} in
